@@ -422,7 +422,15 @@ class ObjRun:
             self.c01_value(o, op.get("how", "kw"))
             pn = _try(lambda: list(obj.get_parameter_names()))
             if pn[0] == "ok" and all(n in vals for n in pn[1]):
-                _try(lambda: obj.logd(**{n: vals[n] for n in pn[1]}))
+                kw = _try(lambda: _f(obj.logd(**{n: vals[n] for n in pn[1]})))
+                # by position or by keyword: the same number (component densities with open conditioning variables too)
+                ps = _try(lambda: _f(obj.logd(*[vals[n] for n in pn[1]])))
+                if not self.fault_fired and kw[0] == "ok" and ps[0] == "ok" and np.all(np.isfinite(kw[1])):
+                    self.ctx.count("c01_values")
+                    if not close(kw[1], ps[1], 1e-9):
+                        self.ctx.violate("C01", "wrong_value", {"engine": "objhist", "obj_class": type(obj).__name__,
+                                                                "how": "positional_vs_keyword", "graph": self.sc["graph"]["graph"]},
+                                         keyword=kw[1], positional=ps[1], names=pn[1])
         elif what == "gradient":
             pn = _try(lambda: list(obj.get_parameter_names()))
             if pn[0] == "ok" and len(pn[1]) == 1:
